@@ -287,6 +287,10 @@ func runC18(p *eng.Prog, r *eng.Report, tier string) {
 			ninv++
 			g := f.Graph()
 			c.dom("C18.5", f, cl, "invitation callback", []string{"!eq(recv.HandleInvite,nil)", "!eq(*.X.XMLName.Local,\"\")", "eq(encoding/xml.Decoder.Decode[*](*),nil)"})
+			// ... and by nothing else: every muc#user payload that decoded is handed over (which
+			// of its fields are filled in is the callback's business: a mediated invitation names
+			// no JID of its own, a direct one no password)
+			c.onlyFacts("C18.5", f, cl, "every decoded invitation is delivered", []string{"!eq(recv.HandleInvite,nil)", "!eq(nil,recv.HandleInvite)", "!eq(*.X.XMLName.Local,\"\")", "!eq(\"\",*.X.XMLName.Local)", "eq(encoding/xml.Decoder.Decode[*](*),nil)", "eq(nil,encoding/xml.Decoder.Decode[*](*))", "!eq(encoding/xml.Decoder.Decode[*](*),nil)#else"})
 			// not in a loop
 			pt, _ := g.Where(cl)
 			c.r.Check("C18.5", f, "invitation delivered once", "the callback is not inside a loop (one call per message)", cl.Pos(), !g.Reachable(g.After(pt), pt, nil, nil), "call site can be reached again within one handler invocation")
